@@ -1,8 +1,42 @@
+import json
+
 from mindsdb_sql.exceptions import ParsingException
 
 
 def indent(level):
     return '  ' * level
+
+
+def dump_option_value(value, json_style=False):
+    """Text of a USING / SET option value in the syntax the parsers read back.
+
+    json_style: strings in double quotes and JSON escapes (the model commands), otherwise Python-style quoting
+    (the agent / skill / chatbot / ml_engine / knowledge base commands). Both spellings are read by the grammar;
+    what is not read is Python's None, the repr of an AST node or \\uXXXX escapes.
+    """
+    from mindsdb_sql.parser.ast.base import ASTNode
+
+    if isinstance(value, ASTNode):
+        return value.to_string()
+    if isinstance(value, dict):
+        items = [
+            f'{dump_option_value(str(k), json_style)}: {dump_option_value(v, json_style)}'
+            for k, v in value.items()
+        ]
+        return '{' + ', '.join(items) + '}'
+    if isinstance(value, (list, tuple)):
+        return '[' + ', '.join(dump_option_value(v, json_style) for v in value) + ']'
+    if value is None:
+        return 'null' if json_style else 'NULL'
+    if isinstance(value, bool):
+        if json_style:
+            return 'true' if value else 'false'
+        return repr(value)
+    if isinstance(value, str):
+        if json_style:
+            return json.dumps(value, ensure_ascii=False)
+        return repr(value)
+    return str(value)
 
 
 def ensure_select_keyword_order(select, operation):
